@@ -4,7 +4,7 @@ A = 'PGProofs.'
 TABLE = {}
 
 TABLE['C01'] = dict(
-    imports=[A + 'Assembly', A + 'Glue', A + 'Bridge', A + 'MomentsThm', A + 'RewardsThm'],
+    imports=[A + 'Assembly', A + 'Glue', A + 'Bridge', A + 'MomentsThm', A + 'RewardsThm', A + 'EndToEnd'],
     summary='Proved for all inputs: the generator the code builds on lineage counts is the projection of the labelled '
             'structured Lambda-coalescent (lumping + bridge), the rate matrix rows represent it, equal moments follow for '
             'any abstract exponential obeying the four laws (lump_accum), the sorted sweep of _accumulate is pointwise, '
@@ -26,6 +26,11 @@ TABLE['C01'] = dict(
         ('third_central_formula', 'PG.accumulate_third_central', 'k = 3, equal rewards: m3 - 3 m2 mu + 2 mu^3'),
         ('treeHeight_reward', 'PG.treeHeight_zero_iff_absorbing', 'the tree-height reward is the indicator of non-absorbing states'),
         ('moments_nonneg', 'PG.accum_nonneg', 'Metzler generators and non-negative rewards give non-negative raw moments'),
+        ('end_to_end_moment', 'PG.EndToEnd.moment_call_eq_labelled', 'CAPSTONE: what Coalescent/dist.moment(k, rewards, start_time, end_time, center, permute) RETURNS for a well-formed call (argument resolution, window difference, centring, permutation average, epoch sweep, rate matrices built by BFS) equals the same combination of moments of the LABELLED structured coalescent'),
+        ('end_to_end_vector', 'PG.EndToEnd.accumulate_call_vector_eq_labelled', 'accumulate on ANY list of times (unsorted, repeated): entry i is the labelled value at times[i]'),
+        ('end_to_end_nonvacuous', 'PG.EndToEnd.moment_call_eq_labelled_exists', 'a labelled start configuration with the right counts always exists'),
+        ('end_to_end_raw', 'PG.EndToEnd.raw_of_code', 'the raw conditioned accumulation of the call layer is the sweep of the code model'),
+        ('end_to_end_instance', 'PG.EndToEnd.capstone_instance', 'instantiated with the real matrix exponential on a concrete model (BFS evaluated in the kernel)'),
     ])
 
 TABLE['C02'] = dict(
@@ -184,7 +189,7 @@ TABLE['C07'] = dict(
     ])
 
 TABLE['C08'] = dict(
-    imports=[A + 'DemePerm', A + 'VanLoan', A + 'RewardsThm', A + 'Labelled', A + 'ConfigThm'],
+    imports=[A + 'DemePerm', A + 'VanLoan', A + 'RewardsThm', A + 'Labelled', A + 'ConfigThm', A + 'EndToEnd'],
     summary='Proved: relabelling states by any bijection leaves every moment and cdf unchanged (perm_accum / perm_cdf, E_reindex); '
             'the labelled generator is invariant under permutation of particles; deme rewards sum to one. The code model `transit` is equivariant under permutation of the deme axis (transit_lineage_equivariant) and the moments / cdf on the BFS graphs the code builds are invariant (C08_moments_perm, C08_cdf_perm); '
             'the input glue from the user\'s containers to the axis is modelled and proved for every listing order, omission of unsampled demes and every iteration order of the Python set (ConfigThm). Hash-seed independence of the real interpreter is exercised.',
@@ -211,6 +216,9 @@ TABLE['C08'] = dict(
         ('glue_mig_by_sorted_names_defect', 'PG.Config.migBySortedNames_violates', 'kernel-checked: indexing the sorted epoch names in migrate_unlinked attaches rates to the wrong pair'),
         ('glue_deme_reward_sorted_defect', 'PG.Config.demeRewardBySortedNames_violates', 'kernel-checked: the pre-fix DemeReward lookup'),
         ('glue_nonvacuous', 'PG.Config.exInput_current_ok', 'a 4-deme instance with unsorted names and two omitted populations satisfies the hypotheses and the conclusion'),
+        ('end_to_end_named', 'PG.EndToEnd.moment_call_named_invariant', 'CAPSTONE: two listings of the same named input (any order in each container, unsampled demes listed or omitted, any set order) make moment(...) return the same value for rewards given BY NAME, for every call and call-layer variant, exceptions included'),
+        ('end_to_end_named_labelled', 'PG.EndToEnd.moment_call_named_eq_labelled', 'and that value is the labelled-process combination for the first listing'),
+        ('end_to_end_named_instance', 'PG.EndToEnd.named_invariant_instance', 'a concrete two-deme instance with every dict reversed'),
     ])
 
 TABLE['C09'] = dict(
@@ -350,7 +358,7 @@ TABLE['C14'] = dict(
     ])
 
 TABLE['C15'] = dict(
-    imports=[A + 'Corollaries', A + 'RoutesThm', A + 'Conservation', A + 'MomentsThm', A + 'RewardsThm', A + 'SampleConsistency', A + 'ApiThm', A + 'MemoThm'],
+    imports=[A + 'Corollaries', A + 'RoutesThm', A + 'Conservation', A + 'MomentsThm', A + 'RewardsThm', A + 'SampleConsistency', A + 'ApiThm', A + 'MemoThm', A + 'EndToEnd'],
     summary='Proved: centring = binomial / inclusion-exclusion combination of raw moments = central moment of any linear expectation '
             '(all k), explicit k = 2, 3; permutation averaging makes cross moments symmetric (all permutations); additivity in each '
             'reward slot; unit reward neutral in products; covariance assembly symmetric. Routes: cached properties, dist.moment and '
@@ -378,6 +386,7 @@ TABLE['C15'] = dict(
         ('memo_keys_exact', 'PG.Memo.memo_keyEq_iff', 'memo-key comparison = equality of rewards (nested composites included)'),
         ('memo_frozenset_defect', 'PG.Memo.frozensetComposite_collides', 'kernel-checked: a composite hash built from frozenset(children) makes Sum[A,A,B] collide with Sum[A,B]'),
         ('memo_base_class_hash_defect', 'PG.Memo.baseClassHash_collides', 'kernel-checked: hashing the defining class name makes composites differing in a stateless member collide (bare atoms still do not)'),
+        ('call_congruence', 'PG.EndToEnd.accumulateModel_congr', 'accumulate(center, permute) is a fixed combination of the raw moments of its sub-tuples: equal raw ingredients give equal results'),
     ])
 
 TABLE['C16'] = dict(
